@@ -1,3 +1,5 @@
+open Archive
+open BinInt
 open BinNat
 open BinNums
 open Bytes0
@@ -9,6 +11,8 @@ open List0
 open Names
 open Nat0
 open Path
+open PeanoNat
+open Resume
 open Wire
 
 type tr_cfg = { tc_proto : coq_N; tc_binary : bool; tc_directory : bool;
@@ -33,7 +37,7 @@ val tr_rules_eval :
 val tr_is_compress_fixed : tr_cfg -> coq_N -> bool * bool
 
 type tr_entry = { te_id : coq_Z; te_rel : name list; te_isdir : bool;
-                  te_chunks : byte list list }
+                  te_chunks : byte list list; te_subs : tr_entry list }
 
 val te_data : tr_entry -> byte list
 
@@ -42,11 +46,49 @@ val te_size : tr_entry -> coq_N
 val te_name : tr_entry -> name
 
 type tr_sched = { sc_sizes : nat list; sc_dflt : nat; sc_profit : bool;
-                  sc_steps : coq_N list; sc_prefinal : coq_N list }
+                  sc_steps : coq_N list; sc_prefinal : coq_N list;
+                  sc_hstops : nat option; sc_rsizes : nat list;
+                  sc_rdflt : nat; sc_wsizes : nat list; sc_wdflt : nat }
 
 val tr_add_name : name list -> name -> name list
 
 val tr_blen : byte list -> coq_N
+
+val tr_has_subs : tr_entry -> bool
+
+val tr_archive_mode : tr_cfg -> bool
+
+val tr_same_id : tr_entry -> (tr_entry * tr_sched) -> bool
+
+val tr_with_subs : tr_entry -> tr_entry list -> tr_entry
+
+val tr_group_go :
+  nat -> (tr_entry * tr_sched) list -> (tr_entry * tr_sched) list
+
+val tr_group :
+  tr_cfg -> (tr_entry * tr_sched) list -> (tr_entry * tr_sched) list
+
+val tr_ameta : tr_entry -> ameta
+
+val tr_aentry : tr_entry -> aentry
+
+val tr_anode : anode -> node
+
+val tr_graft : fs -> path -> afs -> fs
+
+val tr_set_fs : state -> fs -> state
+
+val tr_graft_st : state -> path -> afs -> state
+
+val tr_set_file : state -> path -> byte list -> state
+
+val tr_old_content : state -> path -> byte list
+
+val tr_skip_chunks : nat -> byte list list -> byte list list
+
+val tr_rem_entry : tr_entry -> coq_Z -> tr_entry
+
+val tr_hash_B : coq_N
 
 type tr_npayload =
 | TrPlain of name
@@ -60,11 +102,14 @@ type 'digest tr_msg =
 | TrData of byte list
 | TrMd5 of 'digest
 | TrExit of name list
+| TrHash of coq_Z * digest
+| TrHashOver
 | TrSuccInt of coq_N
 | TrSuccName of name
 | TrSuccTarget of name * coq_N
 | TrSuccAck of coq_N * coq_N
 | TrSuccDigest of 'digest
+| TrSuccHack of coq_Z * bool
 | TrKeepAlive
 | TrFail
 
@@ -81,9 +126,38 @@ val tr_v1_chunks : tr_entry -> tr_sched -> byte list list
 val tr_v1_payload :
   (byte list -> byte list) -> tr_cfg -> byte list -> byte list
 
+val tr_hdr_of :
+  (src -> coq_Z -> byte list) -> coq_Z -> name -> ameta -> byte list
+
+val tr_parse_of :
+  (byte list -> (src * coq_Z) option) -> coq_Z -> byte list -> ameta option
+
+val tr_arch_hdr :
+  (src -> coq_Z -> byte list) -> tr_entry -> ameta -> byte list
+
+val tr_arch_entries : tr_entry -> aentry list
+
+val tr_arch_size : (src -> coq_Z -> byte list) -> tr_entry -> coq_Z
+
+val tr_arch_entry :
+  (src -> coq_Z -> byte list) -> tr_entry -> tr_sched -> tr_entry option
+
+val tr_unarchive :
+  (byte list -> (src * coq_Z) option) -> coq_Z -> tr_sched -> byte list ->
+  afs option
+
+val tr_hmsg : hmsg -> 'a1 tr_msg
+
+val tr_hack : ack -> 'a1 tr_msg
+
+val tr_resume_size : tr_entry -> coq_N -> nat
+
+val tr_resume_pre : tr_cfg -> tr_entry -> 'a1 tr_msg list
+
 type tr_sphase =
 | SpNum
 | SpName
+| SpHash of coq_Z * coq_Z
 | SpSize
 | SpAcks of coq_N list
 | SpFinal
@@ -92,7 +166,6 @@ type tr_sphase =
 | SpExit
 | SpDone
 | SpFail
-| SpUnmodelled
 
 type tr_sstate = { ss_phase : tr_sphase;
                    ss_todo : (tr_entry * tr_sched) list; ss_names : name list }
@@ -111,28 +184,46 @@ val tr_sender_init :
 val tr_s_md5 :
   (byte list -> 'a1) -> tr_sstate -> tr_entry -> tr_sstate * 'a1 tr_msg list
 
+val tr_s_size :
+  tr_entry -> tr_sched -> (tr_entry * tr_sched) list -> name list -> coq_N ->
+  tr_sstate * 'a1 tr_msg list
+
+val tr_s_resume :
+  (byte list -> digest) -> tr_cfg -> tr_entry -> tr_sched ->
+  (tr_entry * tr_sched) list -> name list -> coq_N -> tr_sstate * 'a1 tr_msg
+  list
+
 val tr_s_named :
-  tr_cfg -> tr_sstate -> tr_entry -> (tr_entry * tr_sched) list -> name ->
-  coq_N -> tr_sstate * 'a1 tr_msg list
+  (byte list -> digest) -> (src -> coq_Z -> byte list) -> tr_cfg -> tr_sstate
+  -> tr_entry -> tr_sched -> (tr_entry * tr_sched) list -> name -> coq_N ->
+  tr_sstate * 'a1 tr_msg list
 
 val tr_s_data :
   (byte list -> 'a1) -> (byte list list -> byte list list) -> (byte list ->
   byte list) -> tr_cfg -> tr_sstate -> tr_entry -> tr_sched ->
   tr_sstate * 'a1 tr_msg list
 
+val tr_s_hack :
+  tr_sstate -> coq_Z -> coq_Z -> coq_Z -> bool -> tr_sstate * 'a1 tr_msg list
+
 val tr_sender :
   (byte list -> 'a1) -> ('a1 -> 'a1 -> bool) -> (byte list list -> byte list
-  list) -> (byte list -> byte list) -> tr_cfg -> tr_sstate -> 'a1 tr_msg ->
-  tr_sstate * 'a1 tr_msg list
+  list) -> (byte list -> byte list) -> (byte list -> digest) -> (src -> coq_Z
+  -> byte list) -> tr_cfg -> tr_sstate -> 'a1 tr_msg -> tr_sstate * 'a1
+  tr_msg list
 
 val tr_create :
-  tr_cfg -> path -> tr_npayload -> byte list -> state -> result * state
+  tr_cfg -> path -> tr_npayload -> byte list -> state -> Names.result * state
 
 val tr_p_isdir : tr_npayload -> bool
 
 val tr_p_archive : tr_npayload -> bool
 
 val tr_p_tail : tr_npayload -> name list
+
+val tr_p_aid : tr_npayload -> coq_Z
+
+val tr_p_size : tr_npayload -> coq_N
 
 val tr_leaf : path -> name -> tr_npayload -> path
 
@@ -141,6 +232,8 @@ val tr_target_size : path -> name -> tr_npayload -> state -> coq_N
 type tr_rphase =
 | RpNum
 | RpName
+| RpHSize of tr_npayload * path * byte list
+| RpHash of tr_npayload * path * byte list * coq_N * rstate
 | RpSize of tr_npayload
 | RpComp of tr_npayload * coq_N
 | RpData of tr_npayload * coq_N * bool * byte list list * coq_N list
@@ -149,10 +242,10 @@ type tr_rphase =
 | RpExit
 | RpDone
 | RpFail
-| RpUnmodelled
 
 type tr_rstate = { rs_phase : tr_rphase; rs_left : nat; rs_st : state;
-                   rs_names : name list; rs_sched : tr_sched list }
+                   rs_names : name list; rs_sched : tr_sched list;
+                   rs_open : ((path * file) * coq_Z) option }
 
 val tr_r_fail : tr_rstate -> tr_rstate * 'a1 tr_msg list
 
@@ -166,6 +259,8 @@ val tr_r_next :
 
 val tr_receiver_init : fs -> tr_sched list -> tr_rstate
 
+val tr_dflt_sched : tr_sched
+
 val tr_cur_sched : tr_rstate -> tr_sched
 
 val tr_r_done :
@@ -175,28 +270,44 @@ val tr_r_done :
 val tr_r_name :
   tr_cfg -> path -> tr_rstate -> tr_npayload -> tr_rstate * 'a1 tr_msg list
 
+val tr_r_hash :
+  (byte list -> digest) -> tr_rstate -> tr_npayload -> path -> byte list ->
+  coq_N -> rstate -> coq_Z -> digest -> tr_rstate * 'a1 tr_msg list
+
+val tr_r_over :
+  tr_rstate -> tr_npayload -> path -> byte list -> coq_N -> rstate ->
+  tr_rstate * 'a1 tr_msg list
+
+val tr_rest_mismatch : tr_rstate -> coq_N -> bool
+
 val tr_r_size :
   tr_cfg -> tr_rstate -> tr_npayload -> coq_N -> tr_rstate * 'a1 tr_msg list
 
 val tr_rdflt : nat
 
+val tr_complete :
+  (byte list -> (src * coq_Z) option) -> tr_cfg -> path -> tr_rstate ->
+  tr_npayload -> byte list -> state option
+
 val tr_r_frame :
-  (byte list -> byte list option) -> tr_cfg -> tr_rstate -> tr_npayload ->
-  coq_N -> bool -> byte list list -> coq_N list -> byte list ->
-  tr_rstate * 'a1 tr_msg list
+  (byte list -> byte list option) -> (byte list -> (src * coq_Z) option) ->
+  tr_cfg -> tr_rstate -> tr_npayload -> coq_N -> bool -> byte list list ->
+  coq_N list -> byte list -> tr_rstate * 'a1 tr_msg list
 
 val tr_r_v1 :
   (byte list -> byte list option) -> tr_cfg -> tr_rstate -> tr_npayload ->
   coq_N -> byte list -> byte list -> tr_rstate * 'a1 tr_msg list
 
 val tr_r_md5 :
-  (byte list -> 'a1) -> ('a1 -> 'a1 -> bool) -> tr_cfg -> path -> tr_rstate
-  -> tr_npayload -> byte list -> 'a1 -> tr_rstate * 'a1 tr_msg list
+  (byte list -> 'a1) -> ('a1 -> 'a1 -> bool) -> (byte list -> (src * coq_Z)
+  option) -> tr_cfg -> path -> tr_rstate -> tr_npayload -> byte list -> 'a1
+  -> tr_rstate * 'a1 tr_msg list
 
 val tr_receiver :
   (byte list -> 'a1) -> ('a1 -> 'a1 -> bool) -> (byte list -> byte list
-  option) -> (byte list -> byte list option) -> tr_cfg -> path -> tr_rstate
-  -> 'a1 tr_msg -> tr_rstate * 'a1 tr_msg list
+  option) -> (byte list -> byte list option) -> (byte list -> digest) ->
+  (byte list -> (src * coq_Z) option) -> tr_cfg -> path -> tr_rstate -> 'a1
+  tr_msg -> tr_rstate * 'a1 tr_msg list
 
 type 'digest tr_conf = { cf_s : tr_sstate; cf_r : tr_rstate;
                          cf_s2r : 'digest tr_msg list;
@@ -208,22 +319,32 @@ val tr_tag_out : bool -> 'a1 tr_msg list -> (bool * 'a1 tr_msg) list
 val tr_step :
   (byte list -> 'a1) -> ('a1 -> 'a1 -> bool) -> (byte list list -> byte list
   list) -> (byte list -> byte list option) -> (byte list -> byte list) ->
-  (byte list -> byte list option) -> tr_cfg -> path -> 'a1 tr_conf -> 'a1
-  tr_conf option
+  (byte list -> byte list option) -> (byte list -> digest) -> (src -> coq_Z
+  -> byte list) -> (byte list -> (src * coq_Z) option) -> tr_cfg -> path ->
+  'a1 tr_conf -> 'a1 tr_conf option
 
 val tr_run_from :
   (byte list -> 'a1) -> ('a1 -> 'a1 -> bool) -> (byte list list -> byte list
   list) -> (byte list -> byte list option) -> (byte list -> byte list) ->
-  (byte list -> byte list option) -> nat -> tr_cfg -> path -> 'a1 tr_conf ->
-  'a1 tr_conf
+  (byte list -> byte list option) -> (byte list -> digest) -> (src -> coq_Z
+  -> byte list) -> (byte list -> (src * coq_Z) option) -> nat -> tr_cfg ->
+  path -> 'a1 tr_conf -> 'a1 tr_conf
 
 val tr_init : tr_cfg -> (tr_entry * tr_sched) list -> fs -> 'a1 tr_conf
+
+val tr_run_items :
+  (byte list -> 'a1) -> ('a1 -> 'a1 -> bool) -> (byte list list -> byte list
+  list) -> (byte list -> byte list option) -> (byte list -> byte list) ->
+  (byte list -> byte list option) -> (byte list -> digest) -> (src -> coq_Z
+  -> byte list) -> (byte list -> (src * coq_Z) option) -> nat -> tr_cfg ->
+  path -> (tr_entry * tr_sched) list -> fs -> 'a1 tr_conf
 
 val tr_run :
   (byte list -> 'a1) -> ('a1 -> 'a1 -> bool) -> (byte list list -> byte list
   list) -> (byte list -> byte list option) -> (byte list -> byte list) ->
-  (byte list -> byte list option) -> nat -> tr_cfg -> path ->
-  (tr_entry * tr_sched) list -> fs -> 'a1 tr_conf
+  (byte list -> byte list option) -> (byte list -> digest) -> (src -> coq_Z
+  -> byte list) -> (byte list -> (src * coq_Z) option) -> nat -> tr_cfg ->
+  path -> (tr_entry * tr_sched) list -> fs -> 'a1 tr_conf
 
 val tr_sender_ok : 'a1 tr_conf -> bool
 
@@ -231,19 +352,42 @@ val tr_receiver_ok : 'a1 tr_conf -> bool
 
 val tr_quiet : 'a1 tr_conf -> bool
 
-val tr_entry_steps :
-  (byte list list -> byte list list) -> tr_cfg -> (tr_entry * tr_sched) -> nat
-
-val tr_fuel :
-  (byte list list -> byte list list) -> tr_cfg -> (tr_entry * tr_sched) list
-  -> nat
+val tr_resume_run :
+  (byte list -> digest) -> tr_cfg -> tr_entry -> tr_sched -> byte list ->
+  result
 
 val tr_spec_entry :
-  tr_cfg -> path -> tr_entry -> state -> (name * state) option
+  (byte list -> digest) -> (src -> coq_Z -> byte list) -> (byte list ->
+  (src * coq_Z) option) -> tr_cfg -> path -> tr_entry -> tr_sched -> state ->
+  (name * state) option
 
 val tr_spec :
-  tr_cfg -> path -> tr_entry list -> state -> name list -> ((name list * name
-  list) * state) option
+  (byte list -> digest) -> (src -> coq_Z -> byte list) -> (byte list ->
+  (src * coq_Z) option) -> tr_cfg -> path -> (tr_entry * tr_sched) list ->
+  state -> name list -> ((name list * name list) * state) option
+
+val tr_tail_steps :
+  (byte list list -> byte list list) -> tr_cfg -> tr_entry -> tr_sched -> nat
+
+val tr_entry_steps :
+  (byte list list -> byte list list) -> (byte list -> digest) -> (src ->
+  coq_Z -> byte list) -> tr_cfg -> path -> tr_entry -> tr_sched -> state ->
+  nat
+
+val tr_fuel_go :
+  (byte list list -> byte list list) -> (byte list -> digest) -> (src ->
+  coq_Z -> byte list) -> (byte list -> (src * coq_Z) option) -> tr_cfg ->
+  path -> (tr_entry * tr_sched) list -> state -> nat
+
+val tr_fuel_items :
+  (byte list list -> byte list list) -> (byte list -> digest) -> (src ->
+  coq_Z -> byte list) -> (byte list -> (src * coq_Z) option) -> tr_cfg ->
+  path -> (tr_entry * tr_sched) list -> fs -> nat
+
+val tr_fuel :
+  (byte list list -> byte list list) -> (byte list -> digest) -> (src ->
+  coq_Z -> byte list) -> (byte list -> (src * coq_Z) option) -> tr_cfg ->
+  path -> (tr_entry * tr_sched) list -> fs -> nat
 
 type tr_tag =
 | TgNum
@@ -256,6 +400,9 @@ type tr_tag =
 | TgAck
 | TgMd5
 | TgExit
+| TgHash
+| TgOver
+| TgHack
 | TgOther
 
 val tr_tag_of : 'a1 tr_msg -> tr_tag
@@ -273,6 +420,8 @@ type tr_q =
 | Q9
 | Q10
 | Q11
+| QH
+| QO
 | QE
 
 val tr_delta : bool -> tr_q -> tr_tag -> tr_q option
@@ -280,3 +429,17 @@ val tr_delta : bool -> tr_q -> tr_tag -> tr_q option
 val tr_accepts_from : bool -> tr_q -> tr_tag list -> tr_q option
 
 val tr_shape_ok : bool -> (bool * 'a1 tr_msg) list -> bool
+
+val tr_p_head : tr_npayload -> name
+
+val tr_tail : tr_cfg -> tr_entry -> name list
+
+val tr_key : tr_cfg -> tr_entry -> name
+
+val tr_nodupb : ('a1 -> 'a1 -> bool) -> 'a1 list -> bool
+
+val tr_first_top : coq_Z list -> tr_entry list -> bool
+
+val tr_subs_wfb : tr_entry -> bool
+
+val tr_wfb : tr_cfg -> tr_entry list -> bool
